@@ -287,10 +287,12 @@ for _p in UNITS["U6"]["parts"]:
         _p9.append(("file", "spec/mutate.rs"))
         _p9.append(("file", "spec/pfmut.rs"))
         _p9.append(("file", "spec/pfmut_ops.rs"))
+        _p9.append(("file", "spec/iter_mut.rs"))
     if _p[0] == "struct" and _p[2] == "ParsedPacket":
         pass
 _p9 += [("impl", "compress.rs", "Compress", ["check_compressed_name"], "external"), ("struct", "synth/gen.rs", "RR", ["pubfields"]), ("impl", "dns_sector.rs", "DNSSector", ["set_qdcount", "set_ancount", "set_nscount", "set_arcount"]),
         ("impl", "parsed_packet.rs", "ParsedPacket", ["into_packet", "rrcount_inc", "rrcount_dec", "insertion_offset", "recompute", "insert_rr"])]
+_p9.append(("file", "spec/clients_u9.rs"))
 # the packet-level functions must come before the traits that call them: order is irrelevant in Rust, so this is fine
 UNITS["U9"] = {
     "title": "mutating operations (C08, C09, C10, C11)",
